@@ -13,9 +13,10 @@ from __future__ import annotations
 import ast
 from pathlib import Path
 
+import common
 from py2v import Untranslatable
 
-SRC = Path('/repo/src/biogeme')
+SRC = Path(common.REPO) / 'src' / 'biogeme'     # common.REPO honours the VERIF_REPO test hook
 METHODS = ['audit', 'check_draws', 'check_rv', 'check_panel_trajectory', 'get_children']
 
 # Gallina head  ->  Python classes it stands for (all must agree)
@@ -384,6 +385,146 @@ def check_unary_children(classes):
                     raise U(f'{name}.{mname} mutates self.children')
 
 
+# ------------------------------------------------------------------------------------ entry-point rules
+def find_method(path, cls, meth):
+    try:
+        mod = ast.parse(path.read_text())
+    except (OSError, SyntaxError) as e:
+        raise U(f'cannot parse {path}: {e}')
+    for node in mod.body:
+        if isinstance(node, ast.ClassDef) and node.name == cls:
+            fns = [st for st in node.body if isinstance(st, ast.FunctionDef) and st.name == meth]
+            if len(fns) != 1:
+                raise U(f'{cls}.{meth}: {len(fns)} definitions')
+            return fns[0]
+    raise U(f'class {cls} not found in {path.name}')
+
+
+def assigns_name(st, name):
+    for n in ast.walk(st):
+        if isinstance(n, (ast.Assign, ast.AnnAssign, ast.NamedExpr)):
+            ts = n.targets if isinstance(n, ast.Assign) else [n.target]
+            for t in ts:
+                for m in ast.walk(t):
+                    if isinstance(m, ast.Name) and m.id == name:
+                        return True
+    return False
+
+
+def shape_biogeme_audit():
+    """BIOGEME._audit: the errors of ALL the formulas are accumulated:
+         list_of_errors = []
+         for v in self.formulas.values():
+             check_draws = v.check_draws(); if check_draws: ...; list_of_errors.append(err_msg)
+             check_rv = v.check_rv();       if check_rv: ...;    list_of_errors.append(err_msg)
+             err, war = v.audit(self.database); list_of_errors += err; list_of_warnings += war
+         ...
+         if list_of_errors: ...; raise BiogemeError("\\n".join(list_of_errors))
+    Returns 'AccAll', or 'AccLast' when the list is re-assigned from v.audit(...) inside the loop."""
+    what = 'BIOGEME._audit'
+    fn = find_method(SRC / 'biogeme.py', 'BIOGEME', '_audit')
+    plain_args(fn, ['self'])
+    body = strip_doc(fn.body)
+    if len(body) < 4 or not empty_list_init(body[0], 'list_of_errors') or not empty_list_init(body[1], 'list_of_warnings'):
+        raise U(f'{what}: does not start with the two empty lists')
+    loop = body[2]
+    it = loop.iter if isinstance(loop, ast.For) else None
+    if not (isinstance(loop, ast.For) and is_name(loop.target, 'v') and not loop.orelse and isinstance(it, ast.Call)
+            and isinstance(it.func, ast.Attribute) and it.func.attr == 'values' and is_self_attr(it.func.value, 'formulas')
+            and not it.args):
+        raise U(f'{what}: the loop `for v in self.formulas.values()` is not the third statement')
+    for n in ast.walk(loop):
+        if isinstance(n, (ast.Break, ast.Continue, ast.Return, ast.Try)):
+            raise U(f'{what}: {type(n).__name__} inside the loop over the formulas')
+    # the final raise
+    last = body[-1]
+    ok = (isinstance(last, ast.If) and is_name(last.test, 'list_of_errors') and not last.orelse
+          and isinstance(last.body[-1], ast.Raise) and 'list_of_errors' in ast.unparse(last.body[-1]))
+    if not ok:
+        raise U(f'{what}: does not end with `if list_of_errors: ... raise BiogemeError(...)`')
+    for st in body[3:-1]:
+        if assigns_name(st, 'list_of_errors'):
+            raise U(f'{what}: list_of_errors is rebound after the loop')
+    # inside the loop
+    want = {'draws': False, 'rv': False, 'audit': False, 'acc': False}
+    reassigned = False
+    for st in loop.body:
+        src = ast.unparse(st)
+        if isinstance(st, ast.Assign) and src == 'check_draws = v.check_draws()':
+            want['draws'] = True
+        elif isinstance(st, ast.Assign) and src == 'check_rv = v.check_rv()':
+            want['rv'] = True
+        elif isinstance(st, ast.If) and ast.unparse(st.test) in ('check_draws', 'check_rv') and not st.orelse:
+            if 'list_of_errors.append(err_msg)' not in [ast.unparse(x) for x in st.body] or assigns_name(st, 'list_of_errors'):
+                raise U(f'{what}: the placement errors are not appended')
+        elif src == 'err, war = v.audit(self.database)':
+            want['audit'] = True
+        elif src == 'list_of_errors += err':
+            want['acc'] = want['audit']
+        elif src == 'list_of_warnings += war':
+            pass
+        elif src == 'list_of_errors, list_of_warnings = v.audit(self.database)':
+            reassigned = True
+        else:
+            raise U(f'{what}: statement not recognised in the loop over the formulas: {src[:80]}')
+    if not (want['draws'] and want['rv']):
+        raise U(f'{what}: check_draws / check_rv not called on every formula')
+    if reassigned:
+        return 'AccLast'
+    if not (want['audit'] and want['acc']):
+        raise U(f'{what}: the audit of each formula is not accumulated with +=')
+    return 'AccAll'
+
+
+def check_database_audit():
+    """Database._audit looks at the current table only: every attribute of self it reads is `data`"""
+    fn = find_method(SRC / 'database.py', 'Database', '_audit')
+    plain_args(fn, ['self'])
+    attrs = sorted({n.attr for n in ast.walk(fn) if isinstance(n, ast.Attribute) and is_name(n.value, 'self')})
+    if attrs != ['data']:
+        raise U(f'Database._audit reads {attrs} (expected the current table self.data only)')
+    src = ast.unparse(fn)
+    for need in ('self.data.dtypes.items()', 'self.data.isnull().values.any()', 'len(self.data.index) == 0'):
+        if need not in src:
+            raise U(f'Database._audit: `{need}` not found')
+
+
+def check_nest_intersection():
+    """NestsForNestedLogit.check_intersection compares every ordered pair of distinct nests"""
+    what = 'NestsForNestedLogit.check_intersection'
+    fn = find_method(SRC / 'nests.py', 'NestsForNestedLogit', 'check_intersection')
+    plain_args(fn, ['self'])
+    body = strip_doc(fn.body)
+    if len(body) != 2 or not isinstance(body[0], ast.For) or ast.unparse(body[1]) != "return (True, '')":
+        raise U(f'{what}: expected one loop and `return True, \'\'`')
+    outer = body[0]
+    if ast.unparse(outer.target) != '(i, nest)' or ast.unparse(outer.iter) != 'enumerate(self.tuple_of_nests)' or outer.orelse:
+        raise U(f'{what}: outer loop is not `for i, nest in enumerate(self.tuple_of_nests)`')
+    inner = [st for st in outer.body if isinstance(st, ast.For)]
+    if len(inner) != 1 or ast.unparse(inner[0].target) != '(j, other_nest)' \
+            or ast.unparse(inner[0].iter) != 'enumerate(self.tuple_of_nests)' or inner[0].orelse or len(inner[0].body) != 1:
+        raise U(f'{what}: inner loop is not `for j, other_nest in enumerate(self.tuple_of_nests)`')
+    cond = inner[0].body[0]
+    if not (isinstance(cond, ast.If) and ast.unparse(cond.test) == 'i != j' and not cond.orelse
+            and ast.unparse(cond.body[0]) == 'the_intersection = nest.intersection(other_nest)'
+            and isinstance(cond.body[1], ast.If) and ast.unparse(cond.body[1].test) == 'the_intersection'
+            and ast.unparse(cond.body[1].body[-1]) == 'return (False, error_msg)'):
+        raise U(f'{what}: the test of a pair of nests is not recognised')
+    for n in ast.walk(outer):
+        if isinstance(n, (ast.Break, ast.Continue)):
+            raise U(f'{what}: {type(n).__name__} in the loops')
+    fn2 = find_method(SRC / 'nests.py', 'NestsForNestedLogit', 'check_partition')
+    if 'return (valid_union and valid_intersection' not in ast.unparse(fn2):
+        raise U('NestsForNestedLogit.check_partition: does not return valid_union and valid_intersection')
+
+
+def entry_rules():
+    acc = shape_biogeme_audit()
+    check_database_audit()
+    check_nest_intersection()
+    return {'biogeme_audit': acc}
+
+
 # ------------------------------------------------------------------------------------ the table
 def build_table():
     classes = load_classes()
@@ -436,8 +577,9 @@ def head_rows(table):
     return rows
 
 
-def emit(table):
+def emit(table, rules=None):
     rows = head_rows(table)
+    rules = rules or entry_rules()
     out = ['(* Recursion table of the audit machinery: for each kind of expression node, the shape of the\n'
            '   implementation of audit / check_draws / check_rv / check_panel_trajectory / get_children that the\n'
            '   class uses (own or inherited), read from src/biogeme/expressions/*.py and catalog.py. *)\n'
@@ -472,4 +614,7 @@ def emit(table):
     out.append('(* every Expression class: implementing class and shape of audit, check_draws, check_rv,\n'
                '   check_panel_trajectory, get_children *)\n'
                'Definition gen_classes : list (string * list string) := [\n' + ';\n'.join(cl) + '\n].')
+    out.append('(* BIOGEME._audit: the error lists of all the formulas of the specification are accumulated (AccAll),\n'
+               '   or only the list of the last formula survives (AccLast) *)\n'
+               f'Definition gen_biogeme_acc : accmode := {rules["biogeme_audit"]}.')
     return '\n\n'.join(out) + '\n'
